@@ -92,6 +92,18 @@ def observe(db: Any) -> Tuple[Dict[Tuple[str, str], Any], List[str]]:
     for lay in db.diag_layers:
         for n, pr in enumerate(getattr(lay, "parent_refs", []) or []):
             rec(lay, f"parent:{n}", lambda pr=pr: pr.layer)
+        raw_cprefs = getattr(lay.diag_layer_raw, "comparam_refs", None) or []
+        for n, ci in enumerate(raw_cprefs):
+            rec(lay, f"cp:{n}", lambda ci=ci: ci.spec)
+            # ... and it has to be the object of THIS database (documents of the same names
+            # may have been loaded before)
+            try:
+                own = any(ci.spec is cp for ss in db.comparam_subsets for cp in ss.comparams)
+            except Exception:
+                own = True
+            if not own:
+                clashes.append(f"FOREIGN {_mk(lay)} cp:{n}: bound to a COMPARAM that is not part "
+                               "of this database")
         if lay.variant_type.value == "PROTOCOL":
             rec(lay, "cps", lambda: lay.comparam_spec)
             rec(lay, "pstack", lambda: lay.prot_stack)
@@ -247,7 +259,7 @@ def judge_db(model: Dict[str, Any], col: common.Collector, tier: str = "quick",
     if fault is not None and not unresolvable and not fault_unclear:
         col.fail_inconclusive(f"generator bug: injected fault {fault} left all references resolvable")
         return
-    ndocs, ncps = len(model["docs"]), len(model.get("cps", []))
+    ndocs, ncps = len(model["docs"]), len(model.get("cps", [])) + len(model.get("css", []))
     orders = orders_for(ndocs, ncps, tier)
     xml_by_rev = {False: G.emit_all(model, False), True: G.emit_all(model, True)}
     variants = [(o, False) for o in orders] + [(orders[0], True)]
@@ -284,6 +296,11 @@ def judge_db(model: Dict[str, Any], col: common.Collector, tier: str = "quick",
         outcomes.append(((order, rev), obs))
         if first_db is None and not rev:
             first_db = db
+        foreign = [x for x in clashes if x.startswith("FOREIGN ")]
+        clashes = [x for x in clashes if not x.startswith("FOREIGN ")]
+        if foreign:
+            col.violation(("bound-to-object-of-another-database", "COMPARAM"),
+                          detail(order, rev, problem=foreign[:5]))
         if clashes:
             col.violation(("view-disagrees", fkind), detail(order, rev, clashes=clashes[:5]))
         for st in sts:
